@@ -247,6 +247,9 @@ class Refused(Unit):
             with_dtype = {"asarray-dtype": lambda: z.__array__(tgt), "array-dtype": lambda: z.__array__(dtype=tgt, copy=None)}
         else:
             with_dtype = {"asarray-dtype": lambda: np.asarray(z, dtype=tgt), "array-dtype": lambda: np.array(z, dtype=tgt)}
+        if not cplx:
+            # a dtype of another kind (float data asked for as integers): NumPy's own unsafe cast, not a refusal
+            with_dtype["asarray-int"] = (lambda: z.__array__(np.int64)) if a["sym"] else (lambda: np.asarray(z, dtype=np.int64))
         for k, f in {"asarray": lambda: np.asarray(z), "array": lambda: np.array(z), **with_dtype, "len": lambda: len(z)}.items():
             try:
                 conv[k] = f()
@@ -266,7 +269,12 @@ class Refused(Unit):
                 checks.append((f"{k}-yields-data", z3.BoolVal(True)))
             else:
                 checks.append((f"{k}-is-array", z3.BoolVal(isinstance(v, pb.Signal) or not isinstance(v, np.ndarray))))
-                checks += same_values(S, v, z.data, f"{k}:")
+                if k == "asarray-int":
+                    # (the np stand-in does not model the dtype argument on shadow arrays: values compared in concrete runs only)
+                    if not S.symbolic:
+                        checks += same_values(S, v, z.data.astype(np.int64), f"{k}:")
+                else:
+                    checks += same_values(S, v, z.data, f"{k}:")
         return checks
 
     def signature(self, label, values, detail):
